@@ -587,7 +587,8 @@ func c03Node(t *rapid.T, id string) *sbom.Node {
 		if n.Hashes == nil {
 			n.Hashes = map[int32]string{}
 		}
-		n.Hashes[int32(rapid.IntRange(1, 17).Draw(t, "algo"))] = hashValue(t, "hv", hx.TextPlainNE()) // mostly valid hash contents
+		algo := int32(rapid.IntRange(1, 17).Draw(t, "algo"))
+		n.Hashes[algo] = hashValue(t, "hv", algo) // well-formed digests
 	}
 	if rapid.Bool().Draw(t, "purl?") {
 		n.Identifiers = setID(n.Identifiers, 1, genPurl(t, "purl"))
